@@ -953,6 +953,16 @@ type aggregate struct {
 	aggregations []*gripql.Aggregate
 }
 
+// aggregationNumber converts a field value for the numeric aggregations.
+// Missing values and booleans are not numbers.
+func aggregationNumber(val interface{}) (float64, error) {
+	switch val.(type) {
+	case nil, bool:
+		return 0, fmt.Errorf("unable to cast %#v of type %T to float64", val, val)
+	}
+	return cast.ToFloat64E(val)
+}
+
 func (agg *aggregate) Process(ctx context.Context, man gdbi.Manager, in gdbi.InPipe, out gdbi.OutPipe) context.Context {
 	aChans := make(map[string](chan gdbi.Traveler))
 	g, ctx := errgroup.WithContext(ctx)
@@ -1015,12 +1025,21 @@ func (agg *aggregate) Process(ctx context.Context, man gdbi.Manager, in gdbi.InP
 					}
 				}
 
-				count := 0
+				//most frequent terms first, so that `size` keeps the top terms
+				type termCount struct {
+					term  interface{}
+					count int
+				}
+				terms := make([]termCount, 0, len(fieldTermCounts))
 				for term, tcount := range fieldTermCounts {
+					terms = append(terms, termCount{term, tcount})
+				}
+				sort.SliceStable(terms, func(i, j int) bool { return terms[i].count > terms[j].count })
+				for count, t := range terms {
 					if size <= 0 || count < int(size) {
 						//sTerm, _ := structpb.NewValue(term)
 						//fmt.Printf("Term: %s %s %d\n", a.Name, sTerm, tcount)
-						out <- &gdbi.BaseTraveler{Aggregation: &gdbi.Aggregate{Name: a.Name, Key: term, Value: float64(tcount)}}
+						out <- &gdbi.BaseTraveler{Aggregation: &gdbi.Aggregate{Name: a.Name, Key: t.term, Value: float64(t.count)}}
 					}
 				}
 				return outErr
@@ -1044,9 +1063,11 @@ func (agg *aggregate) Process(ctx context.Context, man gdbi.Manager, in gdbi.InP
 				for t := range aChans[a.Name] {
 					val := jsonpath.TravelerPathLookup(t, hagg.Field)
 					if val != nil {
-						fval, err := cast.ToFloat64E(val)
+						fval, err := aggregationNumber(val)
 						if err != nil {
+							//only numeric values are binned
 							outErr = fmt.Errorf("histogram aggregation: can't convert %v to float64", val)
+							continue
 						}
 						fieldValues = append(fieldValues, fval)
 						if c > maxValues {
@@ -1085,9 +1106,11 @@ func (agg *aggregate) Process(ctx context.Context, man gdbi.Manager, in gdbi.InP
 				td := tdigest.New()
 				for t := range aChans[a.Name] {
 					val := jsonpath.TravelerPathLookup(t, pagg.Field)
-					fval, err := cast.ToFloat64E(val)
+					fval, err := aggregationNumber(val)
 					if err != nil {
+						//only numeric values enter the digest
 						outErr = fmt.Errorf("percentile aggregation: can't convert %v to float64", val)
+						continue
 					}
 					td.Add(fval, 1)
 				}
